@@ -55,7 +55,7 @@ impl Driver for NodeDriver {
     fn step(&mut self, act: &Value) -> Value {
         let op = act["op"].as_str().unwrap_or("");
         let none_pool = json!({"ret": "", "ev": [], "rep": [], "woken": [], "panic": ""});
-        let none_votor = json!({"msgs": [], "panic": ""});
+        let none_votor = json!({"msgs": [], "arm": [], "panic": ""});
         match op {
             "pvote" | "own" => {
                 let got = self.pool.step(&json!({"op": "vote", "vt": act["vt"]}));
